@@ -190,10 +190,12 @@ static void exec_c17(const Plan& p, Outcome& out) {
   setup(p, sh, ctx, false);
   simsched::Config cfg;
   cfg.nthreads = (int)ctx.size(); cfg.seed = (uint64_t)p.K("schedseed", 1); cfg.mode = (int)p.K("sched_mode", 0);
-  cfg.pct_depth = (int)p.K("pct_depth", 2); cfg.pct_horizon = (int)p.K("pct_horizon", 200); cfg.max_steps = 20000;
+  cfg.pct_depth = (int)p.K("pct_depth", 2); cfg.pct_horizon = (int)p.K("pct_horizon", 200);
+  if (p.K("stall_len", 0) > 0) { cfg.stall_at = (uint64_t)p.K("stall_at", 0); cfg.stall_len = (uint64_t)p.K("stall_len", 0); cfg.stall_any = (int)p.K("stall_any", 0); }
+  cfg.max_steps = 20000 + cfg.stall_len;
   simsched::configure(cfg);
   char buf[512];
-  snprintf(buf, sizeof buf, " {\"prop\":\"C17\",\"run\":%llu,\"class\":\"progress\",\"site\":\"scheduler:step_bound\",\"op\":-1,\"detail\":\"threads did not finish within 20000 scheduler steps (a spinning thread never obtained the lock?)\",\"hash\":\"0\"}\n",
+  snprintf(buf, sizeof buf, " {\"prop\":\"C17\",\"run\":%llu,\"class\":\"progress\",\"site\":\"scheduler:step_bound\",\"op\":-1,\"detail\":\"threads did not finish within the scheduler step bound (20000 + length of the injected stall; a spinning thread never obtained the lock?)\",\"hash\":\"0\"}\n",
            (unsigned long long)p.run);
   g_bound_line = std::string("V") + buf + "O" + buf;
   simsched::on_step_bound = step_bound;
@@ -215,6 +217,14 @@ static void exec_c17(const Plan& p, Outcome& out) {
   g_stats.fired["lock_spin_yields"] += st.spin_hits;
   g_stats.fired["preemptions_inside_critical_section"] += st.preempt_in_cs;
   g_stats.fired["scheduler_steps"] += st.steps;
+  g_stats.fired["thread_stalls"] += st.stalls;
+  g_stats.fired["thread_stalls_inside_critical_section"] += st.stalls_in_cs;
+  g_stats.fired["thread_stall_steps_served"] += st.stall_steps;
+  g_stats.fired["thread_stalls_cut_short(nothing else runnable)"] += st.stalls_cut_short;
+  if (p.K("stall_len", 0) > 0) g_stats.configured["thread_stall"] += 1;
+  if (st.stalls_in_cs) probe("lock_owner_stalled_inside_critical_section", 1);
+  if (st.max_spin_run >= 2000) probe("waiter_spun_2000+_times_on_a_held_lock", 1);
+  else if (st.max_spin_run >= 100) probe("waiter_spun_100+_times_on_a_held_lock", 1);
   probe(sh.family == 0 ? "family_independent_documents" : sh.family == 1 ? "family_shared_readonly_document" : "family_locked_shared_pool");
   if (g_verbose) { out.obs_text.push_back("schedule trace hash " + std::to_string(st.trace_hash) + " steps " + std::to_string(st.steps) + " switches " + std::to_string(st.switches) + " spins " + std::to_string(st.spin_hits)); }
 
@@ -254,6 +264,15 @@ static void gen_c17(uint64_t seed, uint64_t run, const std::string& tier, Plan& 
   p.knobs["pct_horizon"] = (int64_t)r.range(20, 300);
   static const int64_t chunks[] = {64, 256, 1024, 65536};
   p.knobs["chunk"] = chunks[r.below(4)];
+  {  // stalled-thread fault (own stream so that the plans of earlier versions keep their ops)
+    Rng rf(mix64(rs ^ 0x57a11));
+    if (rf.chance(family == 2 ? 1 : 1, family == 2 ? 2 : 5)) {
+      unsigned c = (unsigned)rf.below(20);
+      p.knobs["stall_len"] = (int64_t)(c < 12 ? rf.range(5, 100) : c < 17 ? rf.range(100, 1500) : rf.range(2500, 8000));
+      p.knobs["stall_at"] = (int64_t)rf.below(120);
+      p.knobs["stall_any"] = (int64_t)(family == 2 ? rf.chance(1, 4) : 1);
+    }
+  }
   model::GenOpts go; go.dup_keys = false; go.key_alphabet = 4; go.max_depth = 2; go.wild_strings = false;
   auto add = [&](const char* k) -> Op& { p.ops.emplace_back(); p.ops.back().kind = k; return p.ops.back(); };
   auto text = [&]() { JVal v = JVal::obj(); size_t n = (size_t)r.range(1, 6); for (size_t i = 0; i < n; i++) { std::string k = model::gen_key(r, go); if (v.find(k) < 0) v.o.emplace_back(k, model::gen_value(r, go, 1)); } return model::write(v); };
@@ -288,6 +307,6 @@ static void gen_c17(uint64_t seed, uint64_t run, const std::string& tier, Plan& 
 }
 
 static const Profile kC17 = {"C17", gen_c17, exec_c17,
-  "a run = one plan (4..40 ops distributed over 2..4 real threads) of one of three families - independent documents, shared read-only document (lookups incl. operator[] misses, iteration, AtPointer, ==, Serialize), one shared locked pool (Malloc/Realloc/documents over it) - executed under one seeded schedule (uniform or PCT with 1..4 priority change points; yield points at op boundaries and inside SpinLock/Malloc/Realloc); evaluations = schedules executed; non-trivial = >=1 op and >=1 context switch; distinct = hash(op list, schedule trace hash)"};
+  "a run = one plan (4..40 ops distributed over 2..4 real threads) of one of three families - independent documents, shared read-only document (lookups incl. operator[] misses, iteration, AtPointer, ==, Serialize), one shared locked pool (Malloc/Realloc/documents over it) - executed under one seeded schedule (uniform or PCT with 1..4 priority change points; yield points at op boundaries and inside SpinLock/Malloc/Realloc; in about half of the pool runs one thread is stalled for 5..8000 scheduler steps, usually while it holds the pool lock); evaluations = schedules executed; non-trivial = >=1 op and >=1 context switch; distinct = hash(op list, schedule trace hash)"};
 static ProfileReg r17(&kC17);
 }  // namespace
